@@ -353,6 +353,17 @@ pub struct WorkDir(pub PathBuf);
 impl WorkDir {
 	pub fn new(tag: &str) -> WorkDir {
 		let p = PathBuf::from(format!("/verif/.work/{tag}-{}", std::process::id()));
+		// scratch directories of earlier runs that were killed before they could clean up (their pid is gone)
+		if let Ok(rd) = std::fs::read_dir("/verif/.work") {
+			for e in rd.flatten() {
+				let name = e.file_name().to_string_lossy().into_owned();
+				if let Some(pid) = name.strip_prefix(&format!("{tag}-")).and_then(|r| r.parse::<u32>().ok()) {
+					if !std::path::Path::new(&format!("/proc/{pid}")).exists() {
+						let _ = std::fs::remove_dir_all(e.path());
+					}
+				}
+			}
+		}
 		let _ = std::fs::remove_dir_all(&p);
 		std::fs::create_dir_all(&p).expect("MACHINERY: cannot create work dir");
 		WorkDir(p)
